@@ -7,7 +7,7 @@ records the outcome in /verif/seeded/<name>/meta.json under "detection".  Never 
 import sys, os, json, subprocess, time, re
 
 VERIF = os.path.dirname(os.path.dirname(os.path.abspath(__file__)))
-REPO = "/repo"
+REPO = os.environ.get("VERIF_REPO", "/repo")
 
 
 def sh(cmd, **kw):
@@ -34,7 +34,7 @@ def main():
             i += 1
     st = sh("git -C %s status --porcelain --untracked-files=no" % REPO).stdout.strip()
     if st:
-        print("refusing: /repo has local changes:\n" + st)
+        print("refusing: %s has local changes:\n" % REPO + st)
         return 2
     r = sh("git -C %s apply %s" % (REPO, os.path.join(d, "patch.diff")))
     if r.returncode:
